@@ -5,7 +5,7 @@ import (
 	"github.com/evanphx/json-patch/v5/zzverif/vx"
 )
 
-const nEqShapes = 20
+const nEqShapes = 22
 
 // eqShape builds value shape i with symbolic names (alphabet a..d) and leaves.
 func eqShape(i int, p string) *JV {
@@ -53,6 +53,10 @@ func eqShape(i int, p string) *JV {
 		return jObj().withB(nm(0), jNull()).withB(nm(1), n(0))
 	case 19:
 		return jArr(n(0), jNull())
+	case 20:
+		return symEscStr(p + "e0")
+	case 21:
+		return jObj().withB(nm(0), symEscStr(p+"e0"))
 	}
 	panic("eqShape")
 }
@@ -68,6 +72,10 @@ func respell(v *JV, mode int) *JV {
 		esc := func(b []byte) []byte {
 			var out []byte
 			for _, ch := range b {
+				if ch >= 0x80 {
+					out = append(out, ch) // multi-byte UTF-8 stays as it is
+					continue
+				}
 				out = append(out, '\\', 'u', '0', '0', hexDigits[ch>>4], hexDigits[ch&15])
 			}
 			return out
